@@ -77,6 +77,17 @@ pub fn profile(name: &str) -> Profile {
     match name {
         "c01" => base,
         "c01bulk" => Profile { name: "c01bulk", bulk: true, len: (12, 20), ..base },
+        // few topics, few contexts: TTL kinds, removes and imports collide on the same (context, topic)
+        "c01dense" => Profile {
+            name: "c01dense",
+            topics: vec!["a".into(), "ab".into(), "".into()],
+            w_remove: 12,
+            w_ttl: [3, 2, 2, 5, 8],
+            head_ks: &[1, 2, 3],
+            w_register: 1,
+            len: (40, 80),
+            ..base
+        },
         "c05" => Profile {
             name: "c05",
             w_clock: 0,
@@ -1051,6 +1062,14 @@ impl Runner {
             }
             if let Some(TTL::Head(n)) = nm.frame.ttl {
                 if nm.imported {
+                    continue;
+                }
+                if !nm.drained_in_era || self.model.gc_interrupted.contains(&(*c, t.clone())) {
+                    // the process was restarted between this append and its collection: pending GC work is
+                    // not durable and restarts are outside C09's quantifier; recorded as an observation only
+                    if readable.len() > n as usize {
+                        self.res.count("observations.head_eviction_lost_by_restart");
+                    }
                     continue;
                 }
                 self.res.count("observations.head_groups_checked");
